@@ -3,7 +3,7 @@ import random, warnings
 from .. import core, gen, ref
 from . import cu
 
-MODULES = ['DsdVerif.Props.C20', 'DsdVerif.Props.PyLegacy2', 'DsdVerif.Props.PyLegacyReg', 'DsdVerif.Props.PyLegacyInit', 'DsdVerif.Props.PyLegacySeq', 'DsdVerif.Props.PyLegacySeq2']
+MODULES = ['DsdVerif.Props.C20', 'DsdVerif.Props.PyLegacy2', 'DsdVerif.Props.PyLegacyReg', 'DsdVerif.Props.PyLegacyInit', 'DsdVerif.Props.PyLegacySeq', 'DsdVerif.Props.PyLegacySeq2', 'DsdVerif.Props.PyLegacySeq3']
 GEN_FILES = ['LegacyIupac', 'IupacTables', 'LegacyWrappers', 'PyLegacy', 'PyLegacyReg', 'PyLegacyInit', 'PyFuncs', 'PyLegacySeq', 'PyIupac']
 THEOREM_NAMES = ['legacy_iupac_agree_dna', 'legacy_iupac_agree_rna', 'legacy_wobble_total']
 THEOREMS = ['Dsd.C20.' + t for t in THEOREM_NAMES] + ['Dsd.C20L.' + t for t in ('legacy_canon_eq', 'legacy_rotations_spec', 'legacy_dup_iff')] + \
@@ -32,6 +32,8 @@ THEOREMS += ['Dsd.PyLegacyInit.' + t for t in ['py_init_eq', 'py_refused_leaves_
 THEOREMS += ['Dsd.PyLegacySeq.' + t for t in ['py_seq_init_eq', 'py_seq_complement_eq', 'py_seq_wc_codes_dna', 'py_seq_wc_codes_rna']]
 # the legacy SequenceConstraint views equal the translated current functions; add_constraint assigns _sequence only, a complement read afterwards is the complement of the new sequence
 THEOREMS += ['Dsd.PyLegacySeq.' + t for t in ['py_seq_wc_complement_eq', 'py_seq_reverse_complement_eq', 'py_seq_reverse_wc_complement_eq', 'py_seq_add_frame', 'py_seq_add_then_complement']]
+# the legacy union of IUPAC codes equals the current intersection table for all 15 x 15 pairs; add_constraint in terms of the current per-position results (the equivalence of the two refusal tests is open)
+THEOREMS += ['Dsd.PyLegacySeq.' + t for t in ['py_seq_union_pairs_dna', 'py_seq_union_pairs_rna', 'py_seq_union_reads', 'py_seq_merge_eq', 'py_seq_add_constraint_eq']]
 ASSUMPTIONS = [
     'the legacy SequenceConstraint tables are transcribed from the dictionaries inside its methods (Gen/LegacyIupac.lean, evaluated with '
     'T -> T and T -> U) and compared with the current tables by kernel-decided theorems',
